@@ -18,6 +18,7 @@ let dispatchers : (string list -> string option) list = [
   C_tx.dispatch;
   C_cubic.dispatch;
   C_wire.dispatch;
+  C_vsock.dispatch;
 ]
 
 let dispatch line =
